@@ -278,6 +278,18 @@ func (s *internalRpcServer) Replicate(srv proto.OxiaLogReplication_ReplicateServ
 		return err
 	}
 
+	if term >= 0 && term != follower.Term() {
+		// A replication stream is only attached for the leader of the follower's own term. The acks are
+		// sent on whatever stream is attached and carry no term: a deposed leader that reconnects would
+		// take the acknowledgement of another leader's entries for its own
+		log.Warn(
+			"Replicate failed: the stream is not of the follower's term",
+			slog.Int64("stream-term", term),
+			slog.Int64("follower-term", follower.Term()),
+		)
+		return constant.ErrInvalidTerm
+	}
+
 	err = follower.Replicate(srv)
 	if err != nil && !errors.Is(err, io.EOF) {
 		log.Warn(
